@@ -668,8 +668,27 @@ func genFull(seed int64, property string) *Plan {
 	// faults
 	if faulty {
 		nw := 1 + r.Intn(3)
+		// faults without workload test nothing: two windows in three open just
+		// before something happens (a Job is created, a kill or delete lands, a
+		// cron time comes up) instead of at a uniformly drawn instant
+		var anchors []int64
+		for _, op := range p.Ops {
+			switch op.Kind {
+			case "createJob", "killJob", "deleteJob", "killAny", "deleteAny", "createJobConfig":
+				anchors = append(anchors, op.AtMs)
+			}
+		}
+		if cron {
+			anchors = append(anchors, int64(10000*(1+r.Intn(6))))
+		}
 		for i := 0; i < nw; i++ {
 			st := int64(r.Intn(int(durMs * 3 / 4)))
+			if len(anchors) > 0 && r.Intn(3) != 0 {
+				st = anchors[r.Intn(len(anchors))] - int64(r.Intn(800))
+				if st < 0 {
+					st = 0
+				}
+			}
 			fw := FaultWindow{StartMs: st, EndMs: st + int64(2000+r.Intn(30000))}
 			switch r.Intn(4) {
 			case 0:
